@@ -371,8 +371,9 @@ func expandSchemaRef(target Schema, parentRefs []string, resolver *schemaLoader,
 		return nil, err
 	}
 
-	if t == nil {
-		// guard for when continuing on error
+	if t == nil || err != nil {
+		// guard for when continuing on error: the $ref is left as it was
+		// (a target of the wrong JSON type leaves an allocated, empty schema behind)
 		return &target, nil
 	}
 
